@@ -37,8 +37,9 @@ for fam in fams:
         t = pl.tcases[cid]
         inp = t["inputs"][m["k"] - 1]["inp"]
         diff = {x: [m["got"].get(x), m["want"].get(x)] for x in m["want"] if m["got"].get(x) != m["want"].get(x)}
-        e = out.setdefault(sg, dict(n=0, fam=fam, example=None))
+        e = out.setdefault(sg, dict(n=0, fam=fam, example=None, vars=[]))
         e["n"] += 1
+        e["vars"] = sorted(set(e["vars"]) | checks_refine.diff_vars(ms))
         if e["example"] is None:
             e["example"] = dict(src=render.stmts(bodies[cid], 0).strip(), input={k: v for k, v in inp.items() if not isinstance(v, list)}, diff=diff,
                                 variant=m["v1"], fault=m["fault"], halted=m["halted"])
